@@ -588,10 +588,12 @@ class HTTP1Connection(httputil.HTTPConnection):
         # insert between messages of a reused connection.  Per RFC 7230,
         # we SHOULD ignore at least one empty line before the request.
         # http://tools.ietf.org/html/rfc7230#section-3.5
-        data_str = native_str(data.decode("latin1")).lstrip("\r\n")
+        # Only whole empty lines are skipped and only one CR belongs to the
+        # line terminator: any other CR is part of the (invalid) start line.
+        data_str = re.sub(r"\A(?:\r?\n)+", "", native_str(data.decode("latin1")))
         # RFC 7230 section allows for both CRLF and bare LF.
         eol = data_str.find("\n")
-        start_line = data_str[:eol].rstrip("\r")
+        start_line = data_str[:eol].removesuffix("\r")
         headers = httputil.HTTPHeaders.parse(data_str[eol:])
         return start_line, headers
 
